@@ -15,6 +15,9 @@ def run(ctx):
                       "every installer of such a caller must therefore register _m_caller(X, ...) on X itself", floor=1)
     ctx.rule("R17.e", "__setstate__ re-creates the Watcher tuples of a copy, so (i) it rebinds a bound-method callback by name only when that method's owner IS the watched instance "
                       "(identity, not class membership) and (ii) unregistering a watcher compares by value (list.remove), never by identity", floor=2)
+    ctx.rule("R17.h", "rebinding by name needs a name: wherever __setstate__ rebinds a callback with getattr(self, fn.__name__) under the test get_method_owner(fn) is <instance>, "
+                      "get_method_owner (interpreted abstractly on bound method / function / partial of either / nested partial) answers non-None only for callables that have "
+                      "__name__ (bound methods), or the site tests inspect.ismethod(fn) itself -- otherwise copying an object with a functools.partial callback raises AttributeError", floor=1)
     ctx.rule("R17.f", "a copy starts outside any batch/trigger scope of the original: the transient dispatcher state (parameters_state) is reset after the saved attributes "
                       "were restored, or is excluded from the saved state", floor=1)
     ctx.rule("R17.g", "get_all_slots (used by Parameterized.__getstate__ for slot-held attributes) returns the slots of the class itself and of every base, "
@@ -251,3 +254,60 @@ def run(ctx):
         ctx.fail("R17.g", gas, gas.node, "get_all_slots of a class Leaf(Mid(Base)) with own slots [l1, l2] and inherited [b1] returns %s: slot-held attributes of %s are not saved by "
                                          "__getstate__ and are missing from copies" % (got, "the class itself" if got is not None and "l1" not in got else "a base"),
                  key=gas.qualname + "::incomplete-slots", input="class with its own __slots__; deepcopy/pickle drops the slot-held attribute")
+
+    # ---------------------------------------------------------------- R17.h
+    from engine.absint import Interp, Obj, Unsupported
+    from engine.loader import AnalysisError
+    gmo = ctx.repo.func("param.parameterized.get_method_owner")
+    inst = Obj("instance")
+    meth = Obj("bound_method", kind="method", __self__=inst, __name__="cb")
+    func = Obj("function", kind="function", __name__="f")
+    kinds = {
+        "bound method": meth, "plain function": func,
+        "partial(bound method)": Obj("partial_m", kind="partial", func=meth),
+        "partial(function)": Obj("partial_f", kind="partial", func=func),
+        "partial(partial(bound method))": Obj("partial_pm", kind="partial", func=Obj("partial_m2", kind="partial", func=meth)),
+    }
+    PT = Obj("partial_type")
+
+    def hook(fn, args, kwargs):
+        if fn in ("inspect.ismethod", "ismethod") and args:
+            return isinstance(args[0], Obj) and args[0].attrs.get("kind") == "method"
+        if fn == "isinstance" and len(args) == 2 and args[1] is PT:
+            return isinstance(args[0], Obj) and args[0].attrs.get("kind") == "partial"
+        if fn == "hasattr" and len(args) == 2 and isinstance(args[0], Obj):
+            return args[1] in args[0].attrs
+        return NotImplemented
+    nameless = []
+    for desc, o in kinds.items():
+        it = Interp(ctx.hier, call_hook=hook, globals={"partial": PT, "functools": Obj("functools", partial=PT)})
+        try:
+            outs = it.run_all(gmo, {gmo.params[0]: o})
+        except Unsupported as e:
+            raise AnalysisError("absint cannot interpret get_method_owner: %s -- R17.h cannot decide" % e)
+        ctx.abstract_cases += 1
+        if len(outs) != 1 or outs[0].imprecise or outs[0].kind != "return":
+            raise AnalysisError("absint imprecise on get_method_owner(%s): %s -- R17.h cannot decide" % (desc, outs[0].notes[:2] if outs else "no outcome"))
+        if outs[0].value is not None and "__name__" not in o.attrs:
+            nameless.append(desc)
+    ss = ctx.repo.method("param.parameterized.Parameterized", "__setstate__")
+    scfg = ctx.facts.cfg(ss)
+    n_sites = 0
+    for n in scfg.live_nodes():
+        if n.kind != "stmt" or n.ast is None:
+            continue
+        for a in ast.walk(n.ast):
+            if isinstance(a, ast.Attribute) and a.attr == "__name__" and isinstance(a.value, ast.Name):
+                conds = [(norm(e), t) for e, t in scfg.conditions(n)]
+                via_owner = [c for c, t in conds if t is True and c.startswith("get_method_owner(%s)" % a.value.id)]
+                if not via_owner:
+                    continue
+                n_sites += 1
+                own_test = any(t is True and c.replace(" ", "") in ("inspect.ismethod(%s)" % a.value.id, "ismethod(%s)" % a.value.id) for c, t in conds)
+                if nameless and not own_test:
+                    ctx.fail("R17.h", ss, n, "`%s` is evaluated whenever %s, but get_method_owner answers an owner for %s, which has no __name__: deepcopy and every pickle protocol "
+                                             "raise AttributeError for an object watched with such a callback" % (norm(a), via_owner[0], " / ".join(nameless)),
+                             key=ss.qualname + "::name-of-nameless-callback", input="p.param.watch(functools.partial(p.method, 1), 'x'); copy.deepcopy(p) -> AttributeError")
+                else:
+                    ctx.ok("R17.h", ss, n, "`%s` under `%s`: get_method_owner answers an owner only for callables with __name__%s" % (norm(a), via_owner[0], " (site also tests ismethod)" if own_test else ""))
+    ctx.require(n_sites >= 1, "__setstate__ no longer rebinds bound-method callbacks by name under a get_method_owner test: anchor of R17.h vanished")
